@@ -103,8 +103,81 @@ def rule_used_set(ctx, M, fn, pr, turn_f, river_f):
             ctx.violation(rule, f"{fn.path}|conditional-record|{c[1]}",
                           f"the {c[1]} card is not inserted before the players' combos are tested", fn=fn.path, file=fn.file,
                           line=fn.blocks[bs[0]]["line"])
+    # a collision of EITHER hole card blocks the deal: from the `already used` outcome of each test no path reaches
+    # Showdown::new, except through the assignment `flag = false` of the flag that guards the call
+    sd = [bi for bi, t in fn.calls() if bi in fn.cfg.reachable and I.callee_path(t).endswith("showdown::Showdown::new")]
+    hit_edges = {}
+    for b, lab, truth, term in I.bool_edges(fn, pr):
+        tt, tr = term, truth
+        while tt[0] == "un" and tt[1] == "Not":
+            tt, tr = tt[2], not tr
+        if tt[0] != "call" or not tt[1].startswith("std::collections::HashSet") or len(tt[2]) != 2:
+            continue
+        nm = tt[1].rsplit("::", 1)[-1]
+        if P.strip(tt[2][0]) != M.self_field(M.f_used):
+            continue
+        c = classify_card(M, fn, pr, tt[2][1], turn_f, river_f)
+        if c[0] != "hole":
+            continue
+        if (nm == "contains" and tr) or (nm == "insert" and not tr):
+            hit_edges.setdefault(c[1], []).append((b, lab))
+    flag_false, flag_bad = [], []
+    if sd:
+        # the flag: a named bool local switched on (possibly through a copy), whose true edges guard the call
+        def root_local(op):
+            pl = op.get("copy") or op.get("move")
+            if not pl or pl["proj"]:
+                return None
+            l = pl["l"]
+            for _ in range(6):
+                ds = pr.defs.get(l, [])
+                if len(ds) == 1 and ds[0][2] == "rv" and "use" in ds[0][3]:
+                    p2 = ds[0][3]["use"].get("copy") or ds[0][3]["use"].get("move")
+                    if p2 and not p2["proj"]:
+                        l = p2["l"]
+                        continue
+                break
+            return l
+        by_flag = {}
+        for b in sorted(fn.cfg.reachable):
+            t = fn.blocks[b]["term"]
+            if t["k"] == "switch" and t["ty"] == "bool":
+                l = root_local(t["on"])
+                if l is not None and fn.local_name(l) is not None and len(pr.defs.get(l, [])) >= 2:
+                    vals = [v for v, _ in t["arms"]]
+                    for lab, _tgt in fn.cfg.succ_edges[b]:
+                        if I.edge_truth(None, lab, vals):
+                            by_flag.setdefault(l, []).append((b, lab))
+        for fl_, t_edges in sorted(by_flag.items()):
+            if all(I.guarded_by(fn, s_, t_edges) for s_ in sd):
+                for (db, si, k, payload) in pr.defs[fl_]:
+                    v = pr.rvalue(payload) if k == "rv" else None
+                    in_loop = any(db in lp.body for lp in fl)
+                    if v == ("bool", False):
+                        flag_false.append(db)
+                    elif in_loop or v != ("bool", True):
+                        flag_bad.append(db)
+    if sd and hit_edges:
+        for k_, edges in sorted(hit_edges.items()):
+            for (b, lab) in edges:
+                tgt = [t_ for l_, t_ in fn.cfg.succ_edges[b] if l_ == lab][0]
+                r_ = I.reachable_avoiding(fn, [], start=tgt, removed_blocks=flag_false)
+                if any(s_ in r_ for s_ in sd):
+                    ok = False
+                    ctx.violation(rule, f"{fn.path}|collision-not-blocking|hole{k_}",
+                                  f"hole card [{k_}] being already used does not always block the deal: a path from that test "
+                                  f"reaches Showdown::new without clearing the flag that guards it (two players, or a player "
+                                  f"and the turn/river, can hold the same card)", fn=fn.path, file=fn.file, line=fn.blocks[b]["line"],
+                                  construct="used-card test -> Showdown::new")
+                    break
+        if flag_bad:
+            ok = False
+            ctx.violation(rule, f"{fn.path}|flag-reset", "the flag that guards Showdown::new is set to something other than `false` "
+                          "inside the player loop: an earlier collision is forgotten", fn=fn.path, file=fn.file,
+                          line=fn.blocks[flag_bad[0]]["line"], construct="deal-validity flag")
     if ok:
-        ctx.ok(rule, {"fn": fn.path, "checked": sorted(map(str, Q)), "recorded": sorted(map(str, Iset))}, sample=True)
+        ctx.ok(rule, {"fn": fn.path, "checked": sorted(map(str, Q)), "recorded": sorted(map(str, Iset)),
+                      "blocking": f"each of {sorted(hit_edges)} -> no Showdown::new"}, sample=True)
 
 
 def rule_product_board(ctx, M, fn, pr, turn_f, river_f):
@@ -361,6 +434,15 @@ def rule_odometer(ctx, M, fn, pr, store_fns=None):
                 descending = True
         if not descending:
             order_problems.append("the scan does not walk the players from last to first (the last player must be the fastest digit)")
+        # the scan covers every player: 0..len(counters) (or the entry lists' len), no adaptor dropping a player
+        s_src = P.strip(src)
+        whole_scan = False
+        if s_src[0] == "agg" and s_src[1].endswith("Range::Range") and P.const_int(s_src[2][0]) == 0:
+            hi_s = P.strip(s_src[2][1])
+            whole_scan = hi_s[0] == "call" and hi_s[1].rsplit("::", 1)[-1] == "len" and P.strip(hi_s[2][0]) in (counters, entries)
+        if not whole_scan or any(n in ("skip", "take", "step_by", "filter", "skip_while", "take_while") for n in names):
+            order_problems.append("the scan for a player with room does not cover every player (0..number of players): a player's "
+                                  "remaining combos are never dealt")
         # the hit leaves the loop at once
         hit_edges = [(b_, l_) for (b_, l_, c_, k_) in adv]
         for (b_, l_) in hit_edges:
